@@ -375,6 +375,24 @@ def documented_examples(chk, prop):
         if shown != got:
             chk.property_violation({'schema': 'docs/encoding.rst, externally sized array', 'value': 'x = [4, 5], y = [6, 7]'},
                                    {'what': 'the documented bytes differ from encode()', 'documented': shown, 'encode': got})
+        # docs/example/python.py (included by docs/examples.rst) runs, and prints what the page says it prints (D178)
+        import subprocess
+        import sys
+        chk.count(('doc', 'python example'), True)
+        r = subprocess.run([sys.executable, 'python.py'], cwd=os.path.join(docs, 'example'), env=dict(os.environ, PYTHONPATH=py_impl.REPO),
+                           stdout=subprocess.PIPE, stderr=subprocess.PIPE, timeout=120)
+        page = open(os.path.join(docs, 'examples.rst')).read()
+        m = re.search(r'This is what print statement would generate::\n\n((?:    .*\n|\n)+)', page)
+        shown = [line[4:].rstrip() for line in m.group(1).splitlines() if line.strip()] if m else None
+        got = [line.rstrip() for line in r.stdout.decode(errors='replace').splitlines() if line.strip()]
+        if r.returncode != 0:
+            chk.property_violation({'schema': 'docs/example/python.py'}, {'what': 'the documented example does not run', 'stderr': r.stderr.decode(errors='replace')[-300:]})
+        elif shown is None or got[:len(shown)] != shown:
+            chk.property_violation({'schema': 'docs/example/python.py'}, {'what': 'the documented example prints something else than docs/examples.rst shows',
+                                                                         'documented': shown, 'printed': got[:len(shown or [])]})
+        codec_page = open(os.path.join(docs, 'python_codec.rst')).read()
+        if re.search(r">>> \w+\.decode\('", codec_page):
+            chk.property_violation({'schema': 'docs/python_codec.rst'}, {'what': 'the documentation decodes a text string: decode reads bytes'})
     else:
         import importlib.util
         chk.count(('doc', 'hand-written descriptors'), True)
